@@ -389,6 +389,55 @@ def range_fold(ctx, batch, n):
                       {'fold': True, 'mk': mk, 'range': L.impl_range(est) if est is not None else None}, {'ranges': rs}, None))
 
 
+def estimate_histories(ctx, batch, n):
+    """estimate, merge a revision of the library that widens the constituents' ranges, estimate again with the same mapping on
+    the same library object: the second estimate's range is the intersection of the ranges the constituents have NOW, and it
+    guards exactly that range.  Also: an array of temperatures given to an estimate is range-checked like a scalar and is not
+    altered."""
+    import numpy as np
+    import warnings
+    rng = ctx.rng
+    for i in range(n):
+        k = rng.choice([2, 2, 3, 4])
+        specs = [gen_spec(rng, 'grp', n=rng.choice([2, 3, 4, 6]), rkind='present') for _ in range(k)]
+        for sp in specs:
+            sp.pop('via_update', None)
+        counts = [gen_count(rng) or 1 for _ in range(k)]
+        lib = make_library(specs)
+        names = ['g%d' % j for j in range(k)]
+        ctx.count('estimate_histories')
+        check_estimate(ctx, specs, counts, batch, ('history', 'first'), lib=lib, names=names, where={'history': 'first estimate'})
+        wider = [dict(sp, range=[sp['range'][0] - float(rng.choice([0, 5, 40])), sp['range'][1] + float(rng.choice([0.5, 30, 200]))])
+                 for sp in specs]
+        lib.Update(make_library(wider), overwrite=True)
+        check_estimate(ctx, wider, counts, batch, ('history', 'second'), lib=lib, names=names,
+                       where={'history': 'estimate, Update(wider ranges, overwrite=True), estimate again', 'before': specs})
+        # arrays of temperatures through the estimate made after the merge
+        est, mk = build_estimate(lib, dict(zip(names, counts)))
+        er = spec_intersection(wider)
+        if est is None or er is None or er[1] <= er[0]:
+            continue
+        inside = 0.5 * (er[0] + er[1])
+        for tag, arr in (('above', [inside, L.nexta(er[1], True)]), ('below', [L.nexta(er[0], False), inside]), ('far', [inside, er[1] + 400.0]),
+                         ('inside', [er[0], inside, er[1]])):
+            a = np.array(arr, dtype=float)
+            ctx.count('estimate_array_' + tag)
+            try:
+                with warnings.catch_warnings(record=True) as rec:
+                    warnings.simplefilter('always')
+                    got = est.get_CpoR(a)
+                out = [float(x) for x in np.asarray(got).ravel()]
+            except Exception:
+                out = None
+            inp = {'constituents': wider, 'counts': counts, 'temperatures': arr}
+            if [float(x) for x in a] != [float(x) for x in arr]:
+                ctx.violation("the caller's array of temperatures is altered by the evaluation", inp, expected=arr, observed=[float(x) for x in a])
+            cp_all = all(sp['pts'] for sp in wider)
+            if tag != 'inside' and out is not None and cp_all:
+                ctx.violation('Cp/R of an estimate is returned for an array of temperatures one of which lies outside its range', inp,
+                              expected='error', observed=out)
+
+
 def shipped_estimates(ctx, batch, per_lib):
     rng = ctx.rng
     for name in C5.library_names():
@@ -491,6 +540,7 @@ def run_inner(ctx):
     C5.constructor_cases(ctx, batch5, ctx.n(60, 1200))      # the range must contain the table and T_ref (raw_data.py:51-63)
     C5.compare_batch(ctx, batch5, 'corr:c05.eval')
     estimates(ctx, batch, ctx.n(120, 3000))
+    estimate_histories(ctx, batch, ctx.n(25, 400))
     range_fold(ctx, batch, ctx.n(400, 20000))
     shipped_estimates(ctx, batch, ctx.n(6, 60))
     compare(ctx, batch)
